@@ -120,6 +120,77 @@ theorem window_then_aggregate_isolated (m : Method) (r : GroupID → GroupID) (i
    fun c => windowTime_then_node_isolated (iqlNodeB m) (CacheOk m) (iqlBTransparent m) {}
       (fun f hf => by cases hf) c r items hw g hinj⟩
 
+/-- every batch a window emits (count or time) travels under the batch-edge id its group's points carry -/
+theorem window_batches_carry_edge_id (r : GroupID → GroupID) (items : List (Item Pt))
+    (hw : ∀ it ∈ items, ∀ m ∈ it.msgs, StreamLabelled r m) :
+    (∀ pd ev fill, ∀ x ∈ runNode (windowCountNodeB pd ev fill) () items, (onBatchEdge x).group = r x.1) ∧
+    (∀ c, ∀ x ∈ runNode (windowTimeNodeB c) () items, (onBatchEdge x).group = r x.1) :=
+  ⟨fun pd ev fill => windowCount_bid pd ev fill r items hw, fun c => windowTime_bid c r items hw⟩
+
+/-- the batch-edge id of a stream-edge group, read off the stream: the id its first point carries -/
+def edgeIdOf (pts : List (GroupID × Pt)) (g : GroupID) : GroupID :=
+  ((pts.find? (fun a => a.1 == g)).map (·.2.bid)).getD ""
+
+theorem edgeIdOf_spec (pts : List (GroupID × Pt)) (hl : ∀ a ∈ pts, ∀ b ∈ pts, a.1 = b.1 → a.2.bid = b.2.bid)
+    (a : GroupID × Pt) (ha : a ∈ pts) : edgeIdOf pts a.1 = a.2.bid := by
+  unfold edgeIdOf
+  cases h : pts.find? (fun b => b.1 == a.1) with
+  | none =>
+    have := List.find?_eq_none.mp h a ha
+    simp at this
+  | some b =>
+    have hb := List.mem_of_find?_eq_some h
+    have hg := List.find?_some h
+    simp only [beq_iff_eq] at hg
+    simp only [Option.map_some, Option.getD_some]
+    exact hl b hb a ha hg
+
+/-- **window | NODE isolated, the labelling given as a relation**: on a stream of points where two points are in the
+same stream-edge group exactly when they carry the same batch-edge id (true of `ToGroupID` over the dimension list and
+over its duplicate-free version on clean points), the pipeline's output under the batch-edge id of a point `a` is its
+output on the points of `a`'s group alone — count and time windows, any transparent batch receiver. -/
+theorem window_then_node_isolated_rel {ΓB σB ο : Type} (B : Node ΓB σB Batch ο) (IB : ΓB → Prop)
+    (TB : Transparent B IB) (γB : ΓB) (hB : IB γB) (pts : List (GroupID × Pt))
+    (hl : ∀ a ∈ pts, ∀ b ∈ pts, a.1 = b.1 ↔ a.2.bid = b.2.bid) (a : GroupID × Pt) (ha : a ∈ pts) :
+    let items := pts.map (fun x => Item.point x.1 x.2)
+    let solo := (pts.filter (fun x => x.1 == a.1)).map (fun x => Item.point x.1 x.2)
+    (∀ pd ev fill,
+      (runPipe (windowCountNodeB pd ev fill) () onBatchEdge B γB items).filter (fun o => o.1 == a.2.bid) =
+        runPipe (windowCountNodeB pd ev fill) () onBatchEdge B γB solo) ∧
+    (∀ c,
+      (runPipe (windowTimeNodeB c) () onBatchEdge B γB items).filter (fun o => o.1 == a.2.bid) =
+        runPipe (windowTimeNodeB c) () onBatchEdge B γB solo) := by
+  intro items solo
+  have hl1 : ∀ a ∈ pts, ∀ b ∈ pts, a.1 = b.1 → a.2.bid = b.2.bid := fun a ha b hb => (hl a ha b hb).mp
+  have hw : ∀ it ∈ items, ∀ m ∈ it.msgs, StreamLabelled (edgeIdOf pts) m := by
+    intro it hit m hm
+    obtain ⟨x, hx, rfl⟩ := List.mem_map.mp hit
+    simp only [Item.msgs, List.mem_singleton] at hm
+    rw [hm]
+    exact (edgeIdOf_spec pts hl1 x hx).symm
+  have hinj : ∀ it ∈ items, edgeIdOf pts it.group = edgeIdOf pts a.1 → it.group = a.1 := by
+    intro it hit e
+    obtain ⟨x, hx, rfl⟩ := List.mem_map.mp hit
+    simp only [Item.group] at e ⊢
+    rw [edgeIdOf_spec pts hl1 x hx, edgeIdOf_spec pts hl1 a ha] at e
+    exact (hl x hx a ha).mpr e
+  have hsolo : solo = items.filter (fun it => it.group == a.1) := by
+    simp only [solo, items, List.filter_map]; rfl
+  rw [hsolo, ← edgeIdOf_spec pts hl1 a ha]
+  exact ⟨fun pd ev fill => windowCount_then_node_isolated B IB TB γB hB pd ev fill _ items hw a.1 hinj,
+         fun c => windowTime_then_node_isolated B IB TB γB hB c _ items hw a.1 hinj⟩
+
+/-- **the two edges' ids identify the same groups**: on clean points under one groupBy (same by-name flag, same
+dimension list — duplicates allowed), two points get the same id on the stream edge exactly when they get the same id
+on the batch edge behind a window, where the dimension list has lost its duplicates. This is the labelling hypothesis
+of `window_then_node_isolated_rel` for the ids the code computes. -/
+theorem stream_and_batch_edge_ids_agree (p q : GPoint) (hb : p.byName = q.byName) (hd : p.dims = q.dims)
+    (hp : cleanPoint p = true) (hq : cleanPoint q = true) :
+    idOf p = idOf q ↔ idOf (onBatchEdgeDims p) = idOf (onBatchEdgeDims q) := by
+  rw [groupid_injective_partial p q hb hp hq,
+    groupid_injective_partial (onBatchEdgeDims p) (onBatchEdgeDims q) hb (cleanPoint_onBatchEdge hp) (cleanPoint_onBatchEdge hq),
+    sameGroup_onBatchEdge p q hd]
+
 /-! ### groupBy | NODE -/
 
 /-- the stream a `groupBy` node hands to its child: every point under the id computed from the point itself -/
@@ -266,6 +337,17 @@ example :
       .buffered g { key := g, bid := g, tmax := 9, pts := vs.map (fun v => { name := "m", key := g, v := .int v, time := v }) }
     ((runNode evalCountAddNodeB () [b "A" [10, 20], b "B" [10], b "A" [30]]).filter (fun o => o.1 == "A")).map (·.2.proj) =
       ["n:2/10=i:11/20=i:22", "n:1/30=i:33"] := by
+  decide
+
+/-- the relational labelling hypothesis of `window_then_node_isolated_rel` holds when the two edges spell the same
+groups differently (`groupBy('host','host')`: "host=A,host=A" on the stream edge, "host=A" behind the window) -/
+example :
+    let pts : List (GroupID × Pt) := [("host=A,host=A", { name := "m", key := "A", v := .int 1, time := 1, bid := "host=A" }),
+      ("host=B,host=B", { name := "m", key := "B", v := .int 1, time := 1, bid := "host=B" }),
+      ("host=A,host=A", { name := "m", key := "A", v := .int 2, time := 2, bid := "host=A" })]
+    pts.all (fun a => pts.all (fun b => (a.1 == b.1) == (a.2.bid == b.2.bid))) = true ∧
+    (runPipe (windowCountNodeB 1 1 false) () onBatchEdge (iqlNodeB .sum) {} (pts.map (fun x => Item.point x.1 x.2))).map
+      (fun o => (o.1, o.2.proj)) = [("host=A", "i:1"), ("host=B", "i:1"), ("host=A", "i:2")] := by
   decide
 
 /-- groupBy | stateCount: clean points of two hosts -/
